@@ -73,6 +73,17 @@ def assigned_names(body_nodes):
     return names, attrs, mutated
 
 
+def _oblige_conjuncts(st, name, goal, meta):
+    """one instance of the obligation per top-level conjunct of the invariant: smaller queries, and a refuted
+    conjunct gets a counter-model instead of a timeout on the whole conjunction"""
+    t = goal.t if isinstance(goal, SBool) else goal
+    if not isinstance(t, bool) and z3.is_and(t):
+        for c in t.children():
+            st.oblige(name, c, meta)
+    else:
+        st.oblige(name, goal, meta)
+
+
 def _call_pred(interp, pred, env):
     """Call a sidecar predicate, passing the values of the names it asks for."""
     params = _param_names(pred)
@@ -254,7 +265,7 @@ def exec_while(interp, node, frame):
     label = '%s : loop#%s' % (fname, ordinal)
     # (1) invariant on entry
     inv0 = interp.truth(_call_pred(interp, spec.invariant, _env_of(interp, frame, {})))
-    st.oblige(label + ' invariant[entry]', inv0, {'kind': 'loop-entry'})
+    _oblige_conjuncts(st, label + ' invariant[entry]', inv0, {'kind': 'loop-entry'})
     which = st.choose(2)
     _havoc(interp, frame, spec, modified, 'L%s' % ordinal)
     inv = interp.truth(_call_pred(interp, spec.invariant, _env_of(interp, frame, {})))
@@ -275,7 +286,7 @@ def exec_while(interp, node, frame):
                 return None
             return r
         inv2 = interp.truth(_call_pred(interp, spec.invariant, _env_of(interp, frame, {})))
-        st.oblige(label + ' invariant[preserved]', inv2, {'kind': 'loop-preserve'})
+        _oblige_conjuncts(st, label + ' invariant[preserved]', inv2, {'kind': 'loop-preserve'})
         if dec0 is not None:
             dec1 = _call_pred(interp, spec.decreases, _env_of(interp, frame, {}))
             st.oblige(label + ' variant[decreases]',
@@ -372,7 +383,7 @@ def _for_symbolic(interp, node, frame, src):
         return _env_of(interp, frame, e)
 
     inv0 = interp.truth(_call_pred(interp, spec.invariant, env(start)))
-    st.oblige(label + ' invariant[entry]', inv0, {'kind': 'loop-entry'})
+    _oblige_conjuncts(st, label + ' invariant[entry]', inv0, {'kind': 'loop-entry'})
     which = st.choose(2)
     tag = 'L%s' % ordinal
     _havoc(interp, frame, spec, modified, tag)
@@ -401,7 +412,7 @@ def _for_symbolic(interp, node, frame, src):
                 return None
             return r
         inv2 = interp.truth(_call_pred(interp, spec.invariant, env(i + 1)))
-        st.oblige(label + ' invariant[preserved]', inv2, {'kind': 'loop-preserve'})
+        _oblige_conjuncts(st, label + ' invariant[preserved]', inv2, {'kind': 'loop-preserve'})
         raise PathAbort()
     # exit: all elements consumed
     st.assume(start <= n)
